@@ -1,6 +1,4 @@
-//go:build ignore
-
-package eng
+package mirroreng
 
 // World of the `mirror` engine (C15): key registry, note canonicaliser and request-body classifier
 // (adapted copies of the C14 plumbing), the forking ground-truth log with entries, an independent
@@ -18,6 +16,7 @@ import (
 	"encoding/binary"
 	"encoding/hex"
 	"errors"
+	"filippo.io/sunlight/verifharness/internal/eng"
 	"fmt"
 	"io"
 	"strconv"
@@ -44,7 +43,7 @@ type mirrorKey struct {
 	VKey     string
 }
 
-type mirrorRandReader struct{ r *Rand }
+type mirrorRandReader struct{ r *eng.Rand }
 
 func (x mirrorRandReader) Read(p []byte) (int, error) {
 	copy(p, x.r.Bytes(len(p)))
@@ -59,7 +58,7 @@ func (ks *mirrorKeys) add(k *mirrorKey) *mirrorKey {
 	return k
 }
 
-func (ks *mirrorKeys) newLogKey(r *Rand, name string) *mirrorKey {
+func (ks *mirrorKeys) newLogKey(r *eng.Rand, name string) *mirrorKey {
 	skey, vkey, err := note.GenerateKey(mirrorRandReader{r}, name)
 	if err != nil {
 		panic(err)
@@ -75,7 +74,7 @@ func (ks *mirrorKeys) newLogKey(r *Rand, name string) *mirrorKey {
 	return ks.add(&mirrorKey{Name: name, Hash: v.KeyHash(), Signer: s, Verifier: v, VKey: vkey})
 }
 
-func (ks *mirrorKeys) newCosigEd25519(r *Rand, name string) (*mirrorKey, ed25519.PrivateKey) {
+func (ks *mirrorKeys) newCosigEd25519(r *eng.Rand, name string) (*mirrorKey, ed25519.PrivateKey) {
 	priv := ed25519.NewKeyFromSeed(r.Bytes(32))
 	s, err := torchwood.NewCosignatureSigner(name, priv)
 	if err != nil {
@@ -84,7 +83,7 @@ func (ks *mirrorKeys) newCosigEd25519(r *Rand, name string) (*mirrorKey, ed25519
 	return ks.add(&mirrorKey{Name: name, Hash: s.KeyHash(), Signer: s, Verifier: s.Verifier()}), priv
 }
 
-func (ks *mirrorKeys) newCosigMLDSA(r *Rand, name string) (*mirrorKey, *mldsa.PrivateKey) {
+func (ks *mirrorKeys) newCosigMLDSA(r *eng.Rand, name string) (*mirrorKey, *mldsa.PrivateKey) {
 	priv, err := mldsa.NewPrivateKey(mldsa.MLDSA44(), r.Bytes(32))
 	if err != nil {
 		panic(err)
@@ -414,7 +413,7 @@ type mirrorLog struct {
 	maxMir   int64 // largest N written to the mirror-checkpoint key so far (-1: none)
 }
 
-func mirrorGenEntry(r *Rand) []byte {
+func mirrorGenEntry(r *eng.Rand) []byte {
 	switch x := r.Intn(1000); {
 	case x < 80:
 		return nil
@@ -428,18 +427,21 @@ func mirrorGenEntry(r *Rand) []byte {
 }
 
 // mirrorNewLog builds the ground truth: n entries, a fork branch sharing the first p.
-func mirrorNewLog(r *Rand, idx int, origin string, n int, mirrored bool) *mirrorLog {
+func mirrorNewLog(r *eng.Rand, idx int, origin string, n int, mirrored bool) *mirrorLog {
 	lg := &mirrorLog{idx: idx, origin: origin, mirrored: mirrored, maxMir: -1}
 	oh := sha256.Sum256([]byte(origin))
 	lg.ohash = hex.EncodeToString(oh[:])
 	lg.prefix = r.Intn(n + 1)
+	if r.Bool() {
+		lg.prefix = r.Intn(min(n, 300) + 1) // mostly an early fork, so that fork entries / proofs really differ
+	}
 	main := make([][]byte, n)
 	fork := make([][]byte, n)
 	for i := range main {
 		main[i] = mirrorGenEntry(r)
 	}
 	if n > 0 {
-		main[r.Intn(min(n, 8))] = nil                        // at least one empty entry, early
+		main[r.Intn(min(n, 8))] = nil                          // at least one empty entry, early
 		main[r.Intn(min(n, 200))] = r.Bytes(300 + r.Intn(401)) // and a long one
 		e := r.Bytes(3 + r.Intn(6))
 		e[0] |= 0x80
